@@ -40,6 +40,7 @@ const prelude = `(set-option :produce-models true)
 (declare-fun slot (Int Int) Int)
 (assert (forall ((a Int) (b Int)) (! (= (slot a b) (+ a b)) :pattern ((slot a b)))))
 (define-fun iface-nil () Iface (mk-iface 0 0))
+(declare-const recovered! Bool)
 (define-fun slice-nil () Slice (mk-slice 0 0 0 0))
 (define-fun wfslice ((s Slice)) Bool (and (<= 0 (s-off s)) (<= 0 (s-len s)) (<= (s-len s) (s-cap s)) (<= (+ (s-off s) (s-cap s)) 9223372036854775807)))
 (define-fun inrange ((x Int) (lo Int) (hi Int)) Bool (and (<= lo x) (<= x hi)))
